@@ -1045,10 +1045,13 @@ impl<'a, const N: usize> Props for __PrivateMacroProps<'a, N> {
     fn get<'v, K: ToStr>(&'v self, key: K) -> Option<Value<'v>> {
         let key = key.to_str();
 
+        // NOTE: The macros sort key-values by their identifier, but `#[emit::key]`
+        // may rename them afterwards, so the array isn't necessarily sorted by key
+        // and can't be binary searched
         self.0
-            .binary_search_by(|(k, _)| k.cmp(&key))
-            .ok()
-            .and_then(|i| self.0[i].1.as_ref().map(|v| v.by_ref()))
+            .iter()
+            .find(|(k, v)| v.is_some() && *k == key)
+            .and_then(|(_, v)| v.as_ref().map(|v| v.by_ref()))
     }
 
     fn is_unique(&self) -> bool {
